@@ -194,6 +194,8 @@ def run_pel_property(run, model, proof, pid, rule):
     thorough = run.tier == "thorough"
     run.rule = rule
     run_corpus(run, model, pid)
+    if pid in ("C01", "C04"):
+        big_sections(run, model, pid)
     n = 20000 if thorough else 1000
     for i in range(n):
         plugins = rng.random() < 0.8
@@ -208,6 +210,43 @@ def run_pel_property(run, model, proof, pid, rule):
         check_case(run, model, case, pid)
         if i < 3:
             run.sample(dict(input_hex=case["hex"][:400], ids=case["ids"], offsets=case["offsets"]))
+
+
+def big_sections(run, model, pid):
+    """sections around the 15-bit and 16-bit boundaries of the length field, of every length-driven kind, each followed by a
+    small section that must still be decoded intact"""
+    import struct
+    from pel.hexdump import parse
+    from props import c04
+    mt = (b"MT", 1, 0, 0x2000, b"MTM12345" + b"SN1234567890")
+    kinds = [(b"ZZ", 1, 0, 0x1234), (b"UD", 1, 7, 0x1234), (b"DH", 1, 0, 0x2000), (b"ED", 1, 7, 0x1234), (b"SW", 1, 0, 0x2000)]
+    for n in (32750, 32759, 32760, 32761, 32768, 40000, 65000, 65527 - 4):
+        sid, ver, sub, comp = kinds[n % len(kinds)]
+        body = bytes((i * 7 + n) & 0xFF for i in range(n))
+        payload = (b"B\0\0\0" + body) if sid == b"ED" else body
+        data = c04.mini_pel(b"B", [(sid, ver, sub, comp, payload), mt])
+        run.evaluations += 1
+        run.count("big-section")
+        impl = pelgen.impl_decode(data, True)
+        rp = dict(kind="S", gen="big-section", section=sid.decode(), payload_len=n, input_hex=data[:200].hex() + "...")
+        if impl["kind"] != "ok":
+            if pid in ("C01", "C04"):
+                run.violation("reject:big-section", "a PEL with a %s section of %d payload bytes is rejected (%s)" % (sid.decode(), n, impl.get("exc")),
+                              dict(rp, actual=impl.get("exc")))
+            continue
+        keys = list(impl["doc"].keys())
+        sec = impl["doc"][keys[2]] if len(keys) == 4 else {}
+        try:
+            ok = len(keys) == 4 and keys[3] == "Failing MTMS" and bytes(parse(sec["Data"])) == body
+        except Exception:  # noqa: BLE001
+            ok = False
+        if not ok and pid in ("C01", "C04"):
+            run.violation("framing:big-section", "a %s section of %d payload bytes is not shown from exactly its own bytes, or the section after it is lost" % (sid.decode(), n),
+                          dict(rp, keys=keys))
+        mo = pelgen.model_outcome(model.call("decode", b"\1", data))
+        if mo[0] == "ok" and pelgen.first_diff(mo[2], impl["doc"]) and pid == "C01":
+            run.disagreements_checked += 1
+            run.violation("model:big-section", "model and decoder disagree on a PEL with a large section", dict(rp, kind="M", correspondence="Model.Pel.decode vs peltool.parsePEL"), no_input=True)
 
 
 def replay_pel(run, model, path, pid):
